@@ -37,9 +37,9 @@ Proof.
   rewrite app_length. pose proof (H x (or_introl eq_refl)). specialize (IH (fun y Hy => H y (or_intror Hy))). lia.
 Qed.
 
-Lemma oracle_translate_length input seg : length (oracle_translate input seg) <= 40.
+Lemma oracle_translate_full_length input seg : length (oracle_translate_full input seg) <= 40.
 Proof.
-  unfold oracle_translate. destruct input as [|c0 r]; [cbn; lia|].
+  unfold oracle_translate_full. destruct input as [|c0 r]; [cbn; lia|].
   destruct (Byte.eqb c0 x78); [cbn; lia|].
   match goal with |- length (flat_map ?f ?l) <= _ => 
     assert (Hl : length l <= 4);
@@ -53,6 +53,18 @@ Proof.
     destruct (Byte.eqb c0 x75); [cbn; lia|]. destruct (Byte.eqb c0 x76); [cbn; lia|].
     destruct (Nat.eqb L (length (c0 :: r)));
       match goal with |- N.to_nat (_ + ?x mod ?k) <= _ => pose proof (N.mod_upper_bound x k ltac:(discriminate)) end; lia.
+Qed.
+
+Lemma oracle_translate_length input seg : length (oracle_translate input seg) <= 40.
+Proof.
+  unfold oracle_translate. pose proof (oracle_translate_full_length input seg).
+  destruct (opts_get (si_opts seg) opt_verif_short); [rewrite firstn_length|]; lia.
+Qed.
+
+Lemma oracle_translate_incl input seg c : In c (oracle_translate input seg) -> In c (oracle_translate_full input seg).
+Proof.
+  unfold oracle_translate. destruct (opts_get (si_opts seg) opt_verif_short); [|auto].
+  intros H. rewrite <- (firstn_skipn (Nat.div (length (oracle_translate_full input seg) + 1) 2)). apply in_or_app. left. exact H.
 Qed.
 
 (** The synthetic schemas also meet the hypothesis of the UTF-8 clause: for an
@@ -109,7 +121,8 @@ Qed.
 Lemma oracle_translate_clean input seg :
   all_ascii input -> Forall (fun c => cand_clean c = true) (oracle_translate input seg).
 Proof.
-  intros H. unfold oracle_translate. destruct input as [|c0 r] eqn:Ei; [constructor|]. rewrite <- Ei in *.
+  intros H. apply Forall_forall. intros c Hc. apply oracle_translate_incl in Hc. revert c Hc. apply Forall_forall.
+  unfold oracle_translate_full. destruct input as [|c0 r] eqn:Ei; [constructor|]. rewrite <- Ei in *.
   destruct (Byte.eqb c0 x78); [constructor|].
   apply Forall_forall. intros c Hc. apply in_flat_map in Hc as (L & _ & Hc).
   apply in_map_iff in Hc as (j & <- & _). apply oracle_cand_clean, H.
